@@ -47,7 +47,7 @@ fn deterministic_scenario(t: &mut Tape, force_outputs: Option<usize>) -> Scenari
         let change = sc.outs.pop().unwrap();
         sc.outs.clear();
         for j in 0..n {
-            sc.outs.push(rgen::ROut { name: Some(names[j].to_string()), party: 1, terms: vec![Term::AdaLit(1_700_000 + j as i128)], change: false });
+            sc.outs.push(rgen::ROut { name: Some(names[j].to_string()), party: 1, terms: vec![Term::AdaLit(1_700_000 + j as i128)], change: false, optional: false });
         }
         sc.outs.push(change);
         // thresholds must not refer to outputs that no longer exist
@@ -195,9 +195,16 @@ pub fn check_tight(tape: &[u16], rc: &mut RCase) -> Result<(), Failure> {
                     _ => {}
                 }
             }
-            outs.push(rgen::ROut { name: Some(names[k.min(3)].to_string() + &k.to_string()), party: 1, terms, change: false });
+            outs.push(rgen::ROut { name: Some(names[k.min(3)].to_string() + &k.to_string()), party: 1, terms, change: false, optional: false });
         }
-        outs.push(rgen::ROut { name: None, party: 0, terms: vec![], change: true });
+        // one time in three an optional output that evaluates to nothing sits in front of the output the later
+        // template will look at: it is left out of the compiled body, the outputs behind it move up
+        if t.chance(1, 3) {
+            let at = t.pick(j + 1).min(outs.len());
+            outs.insert(at, rgen::ROut { name: None, party: 1, terms: vec![Term::AdaLit(0)], change: false, optional: true });
+            rc.label("tight:history_entry_with_omitted_optional_output");
+        }
+        outs.push(rgen::ROut { name: None, party: 0, terms: vec![], change: true, optional: false });
         history.push(Scenario {
             tx_name: "earlier".into(),
             params: vec![("quantity".into(), 1)],
@@ -245,9 +252,9 @@ pub fn check_tight(tape: &[u16], rc: &mut RCase) -> Result<(), Failure> {
         let mut outs = vec![];
         for k in 0..n_out {
             let terms = if k == j { vec![Term::MinUtxo(j)] } else { vec![Term::AdaLit(pay + k as i128)] };
-            outs.push(rgen::ROut { name: Some(names[k.min(3)].to_string() + &k.to_string()), party: 1, terms, change: false });
+            outs.push(rgen::ROut { name: Some(names[k.min(3)].to_string() + &k.to_string()), party: 1, terms, change: false, optional: false });
         }
-        outs.push(rgen::ROut { name: None, party: 2, terms: vec![], change: true });
+        outs.push(rgen::ROut { name: None, party: 2, terms: vec![], change: true, optional: false });
         Scenario {
             tx_name: "target".into(),
             params: if parameterless { vec![] } else { vec![("quantity".into(), 1)] },
